@@ -174,8 +174,10 @@ def call_records(script, outs):
 LM, DM = "L-marker".encode().hex(), "D-marker".encode().hex()
 
 
-def col_script(pres, s1, s2, req):
-    return ["c10.dir %s %s %s" % (pres, s1, s2), "exists", "dirsha", "create_or_load %s same" % req,
+def col_script(pres, s1, s2, req, sameref=False):
+    # `+sameref` (harness only): the requested schema (in) and the loaded schema (out) are one variable of the caller
+    return ["c10.dir %s %s %s" % (pres, s1, s2), "exists", "dirsha",
+            "create_or_load %s same%s" % (req, " +sameref" if sameref else ""),
             "db.q root_by_name " + LM, "db.q root_by_name " + DM, "db.q crates", "closeall", "dirsha", "load", "exists"]
 
 
@@ -444,7 +446,7 @@ def tie(ctx):
             s1, s2 = rng.choice(v1s), rng.choice(v2s)
             for req in (rng.choice(v1s), rng.choice(v2s)):
                 combos.append((pres, s1, s2, req))
-    cscripts = [col_script(*cb) for cb in combos]
+    cscripts = [col_script(*cb, sameref=(i % 2 == 1)) for i, cb in enumerate(combos)]
     co = runner.run_harness(cscripts)
     mlines = [model_col(*cb) for cb in combos]
     cm = runner.run_model_script([l for l in mlines if l]) if any(mlines) else []
